@@ -178,6 +178,9 @@ def run(ck):
     base += jgen.expr_cases(ck.seed * 31 + 10, 120 if quick else 900, start_id=len(base) + 1, depth=3, numeric=True)
     base += jgen.expr_cases(ck.seed * 31 + 11, 40 if quick else 300, start_id=len(base) + 1, depth=2, collide=True)
     base += jgen.random_cases(ck.seed * 31 + 88, 120 if quick else 1000, start_id=len(base) + 1, features=("loopcontrols", "safe"))
+    # lazy filters (map / select / reject / selectattr / rejectattr) with their consumers: never folded (they take the
+    # context), but their arguments and sources are
+    base += jgen.lazy_cases(ck.seed * 31 + 12, 80 if quick else 600, start_id=len(base) + 1)
     for c in base:
         c.pop("emit_values", None)
     # the same expressions in positions that go through the optimizer pass instead of the
